@@ -472,6 +472,19 @@ pub fn options_leg(out: &mut Out) {
         let o = cli::run(&cli::sv(&["-c", "@c.csv", "-l", "PENINSULA", "--red1", t, "1", "0.5"]), &[("c.csv", "CONSUMO, CAL, RED1, 5\n".as_bytes())], &[], Some(5), Duration::from_secs(10));
         judge_cli(&o, &format!("--red1 {t:?} 1 0.5"), out);
     }
+    // spellings of a user factor in the metadata (the braces form and the list form), in-process and through the program
+    for v in ["{ ren: 0.5, nren: 0.5, co2: 0.1 }", "{ ren: 0.5, nren: 0.5, co2: 0.1, }", "{ }", "{}", "{ 0.5, 0.5, 0.1 }", "{ ren: 0.5 }", "{ ren: , nren: 1, co2: 1 }", "{ ren 0.5, nren 0.5, co2 0.1 }", "{ ren: 0.5, nren: 0.5, co2: 0.1", "ren: 0.5, nren: 0.5, co2: 0.1 }", "0.5, 0.5", "0.5, 0.5, 0.1, 0.7", "0.5; 0.5; 0.1", "(0.5, 0.5, 0.1)", "0.5 0.5 0.1", ", ,", ",,,", ":", "{:}", "{ :, :, : }"] {
+        let r = trap(|| {
+            let _ = v.parse::<cteepbd::types::RenNrenCo2>();
+        });
+        out.evals += 1;
+        if let Err(p) = r {
+            out.viol("library_never_panics", &[], format!("`{v}`.parse::<RenNrenCo2>()"), format!("panic: {p}"), "a value or a typed error");
+        }
+        let text = format!("#META CTE_RED1: {v}\n#META CTE_RED2: {v}\nCONSUMO, CAL, RED1, 5\n");
+        let o = cli::run(&cli::sv(&["-c", "@c.csv", "-l", "PENINSULA"]), &[("c.csv", text.as_bytes())], &[], Some(5), Duration::from_secs(10));
+        judge_cli(&o, &format!("#META CTE_RED1: {v}"), out);
+    }
     // invalid UTF-8, empty and binary files; missing files; unwritable outputs
     let weird: Vec<(&str, Vec<u8>)> = vec![("invalid_utf8", vec![0x43, 0x4f, 0xff, 0xfe, 0x2c, 0x31, 0x0a]), ("empty", vec![]), ("nul", vec![0; 64]), ("only_newlines", b"\n\n\n".to_vec()), ("latin1", b"CONSUMO, ILU, ELECTRICIDAD, 1 # a\xf1o\n".to_vec())];
     for (n, b) in &weird {
